@@ -71,11 +71,14 @@ impl Partition {
             .map_or(messages.len(), |index| index + 1);
         messages.truncate(contiguous);
         if let Some(first_offset) = messages.first().map(|message| message.offset) {
+            // The message before the first one returned must be visible and older than the
+            // requested timestamp, otherwise the first match is still on its way to the log.
             if first_offset > self.segments[0].start_offset
                 && self
                     .get_messages_by_offset(first_offset - 1, 1)
                     .await?
-                    .is_empty()
+                    .first()
+                    .map_or(true, |previous| previous.timestamp >= query_ts)
             {
                 return Ok(Vec::new());
             }
